@@ -271,20 +271,58 @@ func crashSignature(out string) string {
 	if len(kind) > 120 {
 		kind = kind[:120]
 	}
-	var frames []string
-	for _, l := range lines {
+	frame := func(l string) (string, bool) {
 		l = strings.TrimSpace(l)
 		if !strings.Contains(l, "free5gc/go-upf/internal/") && !strings.Contains(l, "khirono/go-nl.") {
-			continue
+			return "", false
 		}
 		if strings.Contains(l, "/verifsim.") || strings.HasPrefix(l, "/") || strings.Contains(l, ".go:") {
-			continue
+			return "", false
 		}
 		if i := strings.LastIndex(l, "("); i > 0 {
 			l = l[:i]
 		}
-		l = l[strings.LastIndex(l, "/")+1:]
-		frames = append(frames, l)
+		return l[strings.LastIndex(l, "/")+1:], true
+	}
+	if kind == "DATA RACE" {
+		// which of the two accesses the detector sees second is up to the Go runtime, so the
+		// signature names both sides (innermost go-upf frame of each), in sorted order
+		var sides []string
+		inBlock, taken := false, false
+		for _, l := range lines {
+			t := strings.TrimSpace(l)
+			switch {
+			case strings.HasPrefix(t, "Read at ") || strings.HasPrefix(t, "Write at ") ||
+				strings.HasPrefix(t, "Previous read at ") || strings.HasPrefix(t, "Previous write at ") ||
+				strings.HasPrefix(t, "Atomic ") || strings.HasPrefix(t, "Previous atomic "):
+				inBlock, taken = true, false
+			case t == "":
+				if inBlock && !taken {
+					sides = append(sides, "?")
+				}
+				inBlock = false
+			case strings.HasPrefix(t, "Goroutine "):
+				inBlock = false
+			case inBlock && !taken:
+				if f, ok := frame(l); ok {
+					sides = append(sides, f)
+					taken = true
+				}
+			}
+			if len(sides) == 2 {
+				break
+			}
+		}
+		sort.Strings(sides)
+		return kind + " @ " + strings.Join(sides, " <> ")
+	}
+	var frames []string
+	for _, l := range lines {
+		f, ok := frame(l)
+		if !ok {
+			continue
+		}
+		frames = append(frames, f)
 		if len(frames) == 2 {
 			break
 		}
@@ -570,6 +608,21 @@ func cmdRun(args []string) int {
 	known := loadKnown()
 	knownSig := map[string]*KnownFinding{}
 	exit := 0
+	// the witnesses are replayed concurrently (a fixed finding is expected NOT to reproduce,
+	// which costs every retry)
+	witnessRes := map[int]chan *Violation{}
+	for i := range known {
+		k := &known[i]
+		if k.Property != prop || k.Witness == "" {
+			continue
+		}
+		ch := make(chan *Violation, 1)
+		witnessRes[i] = ch
+		go func() {
+			v, _ := replayMatches(bin, filepath.Join(verifDir, k.Witness), prop, k.Signature, gmp)
+			ch <- v
+		}()
+	}
 	for i := range known {
 		k := &known[i]
 		if k.Property != prop {
@@ -582,7 +635,7 @@ func cmdRun(args []string) int {
 			continue
 		}
 		wf := filepath.Join(verifDir, k.Witness)
-		v, _ := replayMatches(bin, wf, prop, k.Signature, gmp)
+		v := <-witnessRes[i]
 		switch {
 		case k.Status == "known" && v != nil && v.Signature == k.Signature:
 			fmt.Printf("KNOWN-FINDING: property=%s %s [%s] witness=%s\n", prop, k.Description, k.Signature, wf)
